@@ -95,6 +95,27 @@ class Visit:
         c = callee(n)
         return c in self.fold
 
+    def _hidden_content(self, sub):
+        """(pattern text, [field names]) when a binding-free sub-pattern names a variant of one of the folded enums that
+        has child or leaf fields"""
+        from hir import ppat
+        for alt in pat_alternatives(sub):
+            alt = pat_strip(alt)
+            vp = pat_variant(alt)
+            if not vp:
+                continue
+            for enum in self.enums:
+                try:
+                    adt = self.F.adt(enum)
+                except Exception:
+                    continue
+                for v in adt["variants"]:
+                    if norm_path(v["path"]) == vp:
+                        inner = [f["name"] for f in v["fields"] if self.is_child(vp, f["name"], f["ty"]) or self.is_leaf(vp, f["name"], f["ty"])]
+                        if inner:
+                            return (ppat(alt)[:50], inner)
+        return None
+
     def run_fn(self, fn):
         self.rep.analysed(fn)
         body = fn_body(fn)
@@ -161,8 +182,15 @@ class Visit:
                             continue
                         hids = canonical_hids(arm["pat"], sub)
                         if not hids:
-                            # constant sub-pattern such as `None`: nothing inside to visit
-                            self.rep.ob(self.rule, key, True, "matched against a constant pattern (no content)", line_of(arm))
+                            # a sub-pattern without bindings: fine for a constant such as `None`, but a nested variant pattern
+                            # that hides fields (`target: Expression::Read { .. }`) drops whatever the hidden fields hold
+                            hidden = self._hidden_content(sub)
+                            self.rep.ob(self.rule, key, not hidden,
+                                        "matched against a constant pattern (no content)" if not hidden else
+                                        "child `%s` of %s is matched against the nested pattern `%s`, which binds nothing: the "
+                                        "%s inside that node %s never visited in this arm of %s" % (
+                                            fname_, vname, hidden[0], ", ".join(hidden[1]), "is" if len(hidden[1]) == 1 else "are", fname),
+                                        line_of(arm))
                             continue
                         derived = fl.derived(hids)
                         ok = False
